@@ -5,64 +5,64 @@ HERE = os.path.dirname(os.path.dirname(os.path.abspath(__file__)))
 
 CHECKS = {
     'C01': dict(tech='explicit-state BFS of a spec construction machine + exhaustive rule-violation fault layer, executed on specs_to_ir',
-                text='Bounded exhaustive exploration: every spec reachable by the construction machine under every pair (quick) / triple (thorough) of feature families up to the completed depth is compiled by the real frontend and must be accepted; every entry of the rule-violation catalogue is injected at every applicable site of every such state and must be refused with InvalidSpec; plus the complete parameter/literal product space.',
+                text='Bounded exhaustive exploration: every spec reachable by the construction machine under every pair (quick) / triple (thorough) of feature families up to the completed depth is compiled by the real frontend and must be accepted; every entry of the rule-violation catalogue is injected at every applicable site of every such state and must be refused with InvalidSpec; plus the complete parameter/literal product space. Every state is also compiled with its definitions written as nested (inline) definitions; alias cycles through every wrapper are injected at every alias; import rings, diamonds and imported-namespace / local-name clashes are judged under every file order.',
                 note='Reference rules (guards and fault catalogue) are written from docs/lang_ref.rst in mc/machine.py, mc/faults.py; small-scope bounds listed in the evidence; constructs the reference leaves open are never generated (DESIGN 6/C01 unspec).', ref='6/C01'),
     'C02': dict(tech='explicit-state BFS of the spec construction machine; whole-description comparison against a reference elaboration of the model',
-                text='For every explored valid state the complete API description dumped from the real Api object equals the signature computed from the model by an independent reference elaboration; closure/ordering invariants are additionally evaluated on every accepted text mutant of the C03 space.',
+                text='For every explored valid state the complete API description dumped from the real Api object equals the signature computed from the model by an independent reference elaboration; closure/ordering invariants are additionally evaluated on every accepted text mutant of the C03 space. The description includes the custom annotations that apply below each type (reference: reachability closure) and is also compared for every nested-definition rendering of each state.',
                 note='Reference elaboration in mc/refsem.py; injected doc warnings and the order of annotation types are not judged (DESIGN 6/C02 unspec).', ref='6/C02'),
     'C03': dict(tech='exhaustive enumeration of token-level deviations and of all token strings up to a length bound, executed on specs_to_ir and stone.cli.main',
-                text='Every single token-level deviation at every token of the base specs, every token string up to length 3 (quick) / 4 (thorough) in three layouts, every lang_ref snippet and token prefix, and all ordered pairs of one representative per outcome class must end in an Api or a well-formed InvalidSpec within the watchdog; one representative per outcome class is replayed through the CLI.',
+                text='Every single token-level deviation at every token of the base specs, every token string up to length 3 (quick) / 4 (thorough) in three layouts, every lang_ref snippet and token prefix, and all ordered pairs of one representative per outcome class must end in an Api or a well-formed InvalidSpec within the watchdog; one representative per outcome class is replayed through the CLI. Plus a reference-site x qualifier x name matrix (unqualified, own, imported, unimported, unknown namespaces, namespaces named like local definitions and built-in types), a literal x type matrix with over-long literals and degenerate timestamp formats, and a documentation-reference space.',
                 note='Termination judged by a 20 s watchdog; mutation tokenizer is the harness\'s own.', ref='6/C03'),
     'C11': dict(tech='exhaustive enumeration of layout variants (file/definition permutations, set partitions into files, comment/blank/continuation insertions, stdin) of every BFS-explored model, executed on specs_to_ir, the built-in backends and stone.cli.main',
-                text='For every model of the layout exploration, every file permutation, every definition permutation per file, every set partition of a namespace into up to three files, one comment/blank/trailer insertion at every line boundary, every continuation break and stdin delivery must give the same API signature (namespace docs recomputed in file order); backend output bytes are compared for the structural variants; a layout that flips acceptance is a violation.',
+                text='For every model of the layout exploration, every file permutation, every definition permutation per file, every set partition of a namespace into up to three files, one comment/blank/trailer insertion at every line boundary, every continuation break and stdin delivery must give the same API signature (namespace docs recomputed in file order); backend output bytes are compared for the structural variants; a layout that flips acceptance is a violation. Standard-input delivery is repeated with trailing comments / blanks on namespace lines, a comment or blank line before them and a missing final newline.',
                 note='Backend byte comparison is restricted to the shallower models in the quick tier (the signature dump covers everything backends read); positions inside multi-line doc strings are not layout.', ref='6/C11'),
-    'C04': dict(tech='exhaustive enumeration of (type shape, position, boundary value, mode) over a packed runtime universe; round trip executed on the generated classes and serializers',
-                text='Every type expression up to the nesting bound over primitives with boundary parameters, user types of every kind and aliases, at every position (struct field, union member, alias, route argument), with every boundary value, in strict and lenient mode through both entry points: decode(encode(v)) equals v (observed through public attributes and by the generated __eq__) and re-encoding gives the same JSON.',
+    'C04': dict(tech='exhaustive enumeration of (type shape, position, boundary value, mode) over a packed runtime universe; round trip executed on the generated classes and serializers + history layer (ordered pairs of user types, each in a pristine forked process)',
+                text='Every type expression up to the nesting bound over primitives with boundary parameters, user types of every kind and aliases, at every position (struct field, union member, alias, route argument), with every boundary value, in strict and lenient mode through both entry points: decode(encode(v)) equals v (observed through public attributes and by the generated __eq__) and re-encoding gives the same JSON. Positions include a real containing struct / union per shape (unset, null, set); a history layer runs every ordered pair of related (thorough: all) user types in a process forked from the unused parent.',
                 note='Values are instantiated through public constructors only; the catch-all tag is not a sendable value; one documented exception (nullable struct member without set fields).', ref='6/C04'),
     'C05': dict(tech='exhaustive enumeration of (type shape, position, boundary value) with an independent reference encoder driven by stone.ir',
-                text='For the same space as C04, the output of json_compat_obj_encode and json_encode equals (as parsed JSON) the reference encoding written clause by clause from docs/json_serializer.rst and driven by the stone.ir description, never by the generated reflection tables.',
+                text='For the same space as C04, the output of json_compat_obj_encode and json_encode equals (as parsed JSON) the reference encoding written clause by clause from docs/json_serializer.rst and driven by the stone.ir description, never by the generated reflection tables. Also for timezone-aware UTC timestamps, instances of extending structs at parent-typed positions, and under the history layer of C04.',
                 note='Key order is not compared.', ref='6/C05'),
     'C06': dict(tech='BFS over JSON documents per type shape (reference encodings, every single structural mutation, all small documents) against a three-valued reference reading',
-                text='Every document of the explored set is decoded in strict and lenient mode: the outcome is a value or ValidationError (any other exception is a violation), must-accept documents decode to the reference value, must-reject documents are refused, and a value returned for an unspecified document is still valid for the type.',
+                text='Every document of the explored set is decoded in strict and lenient mode: the outcome is a value or ValidationError (any other exception is a violation), must-accept documents decode to the reference value, must-reject documents are refused, and a value returned for an unspecified document is still valid for the type. String leaves are additionally pushed to near-format variants; the history layer of C04 applies (documents of A, then of B, in a pristine forked process).',
                 note='Reference reading in mc/rtdoc.py from docs/json_serializer.rst; unspecified zones listed in the evidence assumptions.', ref='6/C06'),
     'C08': dict(tech='exhaustive enumeration of probes (bound-1, bound, bound+1, every wrong Python type, related/unrelated classes) for every parameterised primitive and every universe shape through three doors',
-                text='accept <=> valid by the reference predicate derived from stone.ir, refusal is always ValidationError, accepted values read back equal up to the documented normalisations.',
+                text='accept <=> valid by the reference predicate derived from stone.ir, refusal is always ValidationError, accepted values read back equal up to the documented normalisations. A wire-text door feeds every Timestamp type strings in and near its declared format; the history layer of C04 applies.',
                 note='bool offered to numeric types is unspecified; for user types the class relation is judged.', ref='6/C08'),
     'C07': dict(tech='BFS over spec histories (compatible edits at every site) with old and new generated packages loaded side by side; every ancestor pair compared against a reference reading',
-                text='Every history of compatible edits up to the length bound from a base spec in which every edit site is reachable through every nesting position; for every version B and every ancestor A: every varied boundary value of every common type, both directions, strict and lenient, compared with the reference reading of the message by the receiving version; new fields read as their defaults.',
+                text='Every history of compatible edits up to the length bound from a base spec in which every edit site is reachable through every nesting position; for every version B and every ancestor A: every varied boundary value of every common type, both directions, strict and lenient, compared with the reference reading of the message by the receiving version; new fields read as their defaults. The base spec has an open union extending a closed one, a subtype tree behind list / map / alias / nullable-tag positions and a struct without fields.',
                 note='The A-view is the lenient branch of the reference document reading (mc/rtdoc.py); A->B through a Void tag retyped to a non-nullable type is not judged.', ref='6/C07'),
     'C10': dict(tech='exhaustive product of (parameterised primitive, boundary literal) defaults and BFS-explored example models, executed on the generated classes',
-                text='Every accepted default reads back as declared and is accepted on assignment; invalid literals that the compiler accepts must be accepted by the runtime too; every computed example of every explored model and of the rich example specs decodes strictly and re-encodes to the same document.',
+                text='Every accepted default reads back as declared and is accepted on assignment; invalid literals that the compiler accepts must be accepted by the runtime too; every computed example of every explored model and of the rich example specs decodes strictly and re-encodes to the same document. A literal x type matrix offers every literal kind, valid or not, as example value at struct-field and union-member position: whatever the compiler accepts must decode strictly and re-encode to itself; examples are read in compact form first (reading must not change them).',
                 note='Examples are decoded on behalf of a caller holding every declared permission; the catch-all example is excluded.', ref='6/C10'),
     'C13': dict(tech='complete bounded product of annotation placements x permission subsets x redaction on/off x encoders, packed into generated specs and executed on the serializers',
-                text='Omission patterns over inheritance chains (depth 3 quick / 4 thorough) and union chains, omitted fields behind containers, union members and subtype trees, for every subset of the caller classes: visible iff permitted, strict decode refuses iff not permitted; every redactor kind at every eligible placement: no clear sentinel in the output with redaction on, exact mask at scalar positions, untouched with redaction off.',
+                text='Omission patterns over inheritance chains (depth 3 quick / 4 thorough) and union chains, omitted fields behind containers, union members and subtype trees, for every subset of the caller classes: visible iff permitted, strict decode refuses iff not permitted; every redactor kind at every eligible placement: no clear sentinel in the output with redaction on, exact mask at scalar positions, untouched with redaction off. Redacted aliases of nullable types and unannotated aliases of redacted aliases (one and two links) are placements too.',
                 note='Visibility/redaction model from lang_ref.rst; exact masks judged at scalar and one-level positions only.', ref='6/C13'),
     'C09': dict(tech='BFS-explored codegen universe (family pairs/triples + cross-namespace alias product) x every namespace as first import; generated modules imported and reflected against the model',
                 text='For every explored model python_types is generated and, for every namespace as first import, imported (fresh package in-process; fresh interpreter for multi-namespace models up to the stated depth) and reflected: classes, field attributes (unset read, validator, delete), constructors, union helpers and ready void instances, inheritance, validators with their parameters, route objects, attrs and ROUTES.',
                 note='Models use identifiers already in the case style of the generated names; Python reserved words are excluded by the property.', ref='6/C09'),
     'C12': dict(tech='complete enumeration of configurations: specs x backends x covering hash-seed set x histories x option sets x output directories, each run in its own interpreter',
-                text='The covering seed set is computed so that every same-kind identifier pair is seen in both set-iteration orders and every caller triple in all six; every configuration output must be byte-identical to the reference configuration.',
+                text='The covering seed set is computed so that every same-kind identifier pair is seen in both set-iteration orders and every caller triple in all six; every configuration output must be byte-identical to the reference configuration. Histories: fresh, after an unrelated spec, after the same spec under other namespace names, after a sibling spec with the same names but other imports / owners / targets, after other backend options, isolated backends, two output directories.',
                 note='Object addresses are not controlled (perturbed by the history dimension).', ref='6/C12'),
     'C14': dict(tech='complete bounded product of route shapes packed into generated specs; generated client methods called against a recording request()',
-                text='Every sequence of field kinds up to the length bound, flat and split over inheritance, plus union/Void arguments, over versions, deprecation, styles, result kinds and namespace layouts: signature order and defaults, exactly one request with the right route object, namespace, argument, body; warning iff deprecated; return value.',
+                text='Every sequence of field kinds up to the length bound, flat and split over inheritance, plus union/Void arguments, over versions, deprecation, styles, result kinds and namespace layouts: signature order and defaults, exactly one request with the right route object, namespace, argument, body; warning iff deprecated; return value. Isolated scenarios (one situation per spec, generated and imported in a pristine forked process): version x deprecation x argument kind x style, namespace chains, every ordered pair of literal defaults.',
                 note='Expected arguments are built by attribute assignment on the generated classes.', ref='6/C14'),
     'C15': dict(tech='BFS-explored codegen universe; parsed stub (ast) compared with the introspected runtime module and an independent Stone->PEP 484 mapping',
-                text='For every explored model and namespace: classes, attributes, helpers, validators, class aliases, routes, bases, constructor parameters agree between stub and runtime module; annotations equal the reference mapping; every annotation name resolves.',
+                text='For every explored model and namespace: classes, attributes, helpers, validators, class aliases, routes, bases, constructor parameters agree between stub and runtime module; annotations equal the reference mapping; every annotation name resolves. Name-style models put Python keywords, names used by the generated code and mixed-case names at field, void-tag and typed-tag position; the import-reason family covers every subset of reasons to import a namespace.',
                 note='ROUTES, dunder and private attributes are outside the comparison.', ref='6/C15'),
     'C16': dict(tech='BFS-explored codegen universe x {js_types, js_client, tsd_types, tsd_client}; output executed / scanned by purpose-written lexers and declaration scanners',
-                text='For every explored model the four JavaScript / TypeScript backends complete; js_types output is loaded by node and its typedef inventory compared with the model; the .d.ts output is lexed, its declarations scanned and compared with the model (every namespace, struct, union, field, tag and route exactly once, types by an independent Stone->TS mapping, no undeclared name).',
+                text='For every explored model the four JavaScript / TypeScript backends complete; js_types output is loaded by node and its typedef inventory compared with the model; the .d.ts output is lexed, its declarations scanned and compared with the model (every namespace, struct, union, field, tag and route exactly once, types by an independent Stone->TS mapping, no undeclared name). tsd_client --import-namespaces output is checked for namespace-qualified names whose namespace is not imported or that the spec does not declare.',
                 note='No TypeScript compiler is installed: well-formedness is decided by the harness\'s own lexer and declaration scanner; three genuine crashes are recorded as known findings.', ref='6/C16'),
     'C17': dict(tech='BFS-explored codegen universe + complete (type shape x position) product x six Swift / Objective-C backend configurations; output scanned by purpose-written lexers and declaration scanners',
-                text='For every explored model and every (shape, position) spec the six configurations complete; every generated file is lexically well formed (comments, strings with interpolation, balanced brackets); every namespace, type, serializer, field, tag and route is declared exactly once under the backend naming scheme; every user-type name used is declared (per file for Objective-C: @class / @interface / #import).',
+                text='For every explored model and every (shape, position) spec the six configurations complete; every generated file is lexically well formed (comments, strings with interpolation, balanced brackets); every namespace, type, serializer, field, tag and route is declared exactly once under the backend naming scheme; every user-type name used is declared (per file for Objective-C: @class / @interface / #import). The shape product is complete: every leaf type under every wrapper combination up to nesting 2 (quick) / 3 (thorough) at field, tag and the nine route positions, plus foreign union / subtype-tree route arguments.',
                 note='No Swift / Objective-C compiler is installed; five crash classes on type shapes the backends do not handle are recorded as known findings.', ref='6/C17'),
     'C18': dict(tech='exhaustive enumeration of target paths, emit scripts (BFS by script length) and manifest runs, executed on the real Backend/Compiler classes and stone.cli.main over a scratch file system',
-                text='Every target path up to the segment bound (.., absolute, symlinked, nested) is either written inside the output folder or refused; every emit script up to the length bound yields exactly the bytes an independent pretty-printer predicts; --output-manifest lists exactly the files a real run creates for every backend x rich spec.',
+                text='Every target path up to the segment bound (.., absolute, symlinked, nested) is either written inside the output folder or refused; every emit script up to the length bound yields exactly the bytes an independent pretty-printer predicts; --output-manifest lists exactly the files a real run creates for every backend x rich spec. Manifest runs are repeated into an output folder that does not exist yet.',
                 note='File-system state is observed by walking the scratch root after every run.', ref='6/C18'),
     'C19': dict(tech='exhaustive enumeration of command lines (filter expression trees by depth in four renderings, all single-token edits, all -w/-b namespace subsets, all -a attribute subsets) executed on stone.cli.main with a recording backend and on the filter seam',
                 text='Every expression tree within the depth bounds is evaluated on every route of a spec whose routes realise the full product of attribute values (all truth assignments of the atoms) and compared with a reference evaluator; every single-token edit of the base expressions is accepted or refused as a reference recogniser says; every namespace and attribute subset, :all and unknown names give exactly the selected view, with consistent by-name tables.',
                 note='Integer-vs-float and boolean-vs-0/1 literal comparisons are not judged.', ref='6/C19'),
     'C20': dict(tech='exhaustive enumeration of (spec, whitelist): gadget specs for every dependency edge kind alone and in pairs + BFS-explored models x every subset of route versions x data-type candidates; executed on specs_to_ir(route_whitelist_filter) and python_types import',
-                text='For every (spec, whitelist) the retained data types and routes lie between the must-retain closure L and the may-retain closure U computed on the model; by-name tables agree; nothing retained refers to a removed type; python_types of the filtered API imports with every namespace first and exposes the retained items.',
+                text='For every (spec, whitelist) the retained data types and routes lie between the must-retain closure L and the may-retain closure U computed on the model; by-name tables agree; nothing retained refers to a removed type; python_types of the filtered API imports with every namespace first and exposes the retained items. Mirror gadgets define the same names with the same doc texts in two namespaces (and a third that uses both).',
                 note='Namespace-doc references and docs of doc-pulled routes belong to U only; unreachable aliases with retained targets are not judged.', ref='6/C20'),
 }
 
